@@ -225,7 +225,10 @@ def apply_fault(m, f):
         root = _parse(m[item])
         for el in root.iter("{%s}Relationship" % NS_PR):
             if el.get("Id") == f["rid"] and el.get("TargetMode") != "External":
-                el.set("Target", posixpath.join(posixpath.dirname(el.get("Target")), "NULL"))
+                if f.get("how") == "names-a-directory":  # voided by cutting the file name off: in a directory package that name EXISTS
+                    el.set("Target", posixpath.dirname(el.get("Target")) or ".")
+                else:
+                    el.set("Target", posixpath.join(posixpath.dirname(el.get("Target")), "NULL"))
                 m[item] = _xml(root)
                 return True
         return False
@@ -367,6 +370,8 @@ def locations(pkg, members, rnd, everything):
         for r in rels:
             if not r.external and not (src == "/" and r.type == RT_OD):
                 out.append(({"kind": "dangling", "src": src, "rid": r.id}, True))
+                if "/" in r.raw.strip("/") and src != "/":
+                    out.append(({"kind": "dangling", "src": src, "rid": r.id, "how": "names-a-directory"}, True))
                 if r.target != main_part(pkg) and pkg.has_part(r.target):
                     # the other way a target goes missing: the member itself is deleted and whatever it left behind (its own
                     # relationship item) stays in the package
